@@ -414,7 +414,6 @@ fn gen_union(s: &mut Src, decls: &[Decl], k: usize) -> UnionD {
     let omit_case = int_switch && s.chance(8);
     let mut pool: Vec<&str> = VARIANT_WORDS.to_vec();
     let mut variants = vec![];
-    let mut any_payload = false;
     for vi in 0..nvar {
         let w = pool.remove(s.below(pool.len())).to_string();
         let shape = match s.weighted(&[15, 55, 30]) {
@@ -425,9 +424,6 @@ fn gen_union(s: &mut Src, decls: &[Decl], k: usize) -> UnionD {
                 VShape::Named(field_name(s, &mut used), gen_ty(s, decls.len()))
             }
         };
-        if !matches!(shape, VShape::Unit) {
-            any_payload = true;
-        }
         let is_default = default_at == Some(vi);
         let want = if is_default {
             if int_switch { s.below(3) } else { 1 + s.below(2) }
@@ -479,8 +475,8 @@ fn gen_union(s: &mut Src, decls: &[Decl], k: usize) -> UnionD {
             cases: vec![universe[0]],
             default: false,
         });
-        any_payload = true;
     }
+    let any_payload = variants.iter().any(|v| !matches!(v.shape, VShape::Unit));
     if !any_payload {
         // a Rust enum with only unit variants is an enumeration, not a union
         variants[0].shape = VShape::Tuple(gen_ty(s, decls.len()));
